@@ -562,7 +562,7 @@ func (r *Reader) MarkdownWithOptions(opts ExtractOptions) (string, error) {
 		for col := minCol; col <= maxCol; col++ {
 			result.WriteString(" ")
 			if minRow < len(sheet.Rows) && col < len(sheet.Rows[minRow]) {
-				result.WriteString(escapeMarkdown(sheet.Rows[minRow][col].Value))
+				result.WriteString(escapeMarkdown(displayValue(&sheet.Rows[minRow][col])))
 			}
 			result.WriteString(" |")
 		}
@@ -637,6 +637,15 @@ func (r *Reader) MarkdownWithRAGOptions(extractOpts ExtractOptions, mdOpts rag.M
 	result.WriteString(md)
 
 	return result.String(), nil
+}
+
+// displayValue returns what a cell shows: the covered (non top-left) cells of
+// a merged region show nothing, even if the file stores a value for them.
+func displayValue(cell *Cell) string {
+	if cell.IsMerged && !cell.IsMergeRoot {
+		return ""
+	}
+	return cell.Value
 }
 
 // findContentBounds finds the bounds of non-empty cells in a sheet.
@@ -741,7 +750,7 @@ func (r *Reader) Document() (*model.Document, error) {
 				cell := sheet.Rows[rowIdx][colIdx]
 
 				modelCell := model.Cell{
-					Text:    cell.Value,
+					Text:    displayValue(&cell),
 					RowSpan: cell.MergeRows,
 					ColSpan: cell.MergeCols,
 				}
@@ -794,7 +803,7 @@ func (r *Reader) sheetToTable(sheet *Sheet) ParsedTable {
 	if minRow <= maxRow && minRow < len(sheet.Rows) {
 		for col := minCol; col <= maxCol; col++ {
 			if col < len(sheet.Rows[minRow]) {
-				table.Headers = append(table.Headers, sheet.Rows[minRow][col].Value)
+				table.Headers = append(table.Headers, displayValue(&sheet.Rows[minRow][col]))
 			} else {
 				table.Headers = append(table.Headers, "")
 			}
@@ -806,7 +815,7 @@ func (r *Reader) sheetToTable(sheet *Sheet) ParsedTable {
 		var rowData []string
 		for col := minCol; col <= maxCol; col++ {
 			if row < len(sheet.Rows) && col < len(sheet.Rows[row]) {
-				rowData = append(rowData, sheet.Rows[row][col].Value)
+				rowData = append(rowData, displayValue(&sheet.Rows[row][col]))
 			} else {
 				rowData = append(rowData, "")
 			}
